@@ -42,8 +42,8 @@ def classify(rec):
     if p["mode"] in ("uphttp", "uphttps") and p.get("reply_variant", 0) in (5, 6) and \
             (rec.get("overread_by_reply_reader") or rec.get("timeout") or not rec.get("reply")):
         return KEY_2XX_BODY
-    if p.get("read_timeout_ms") and (rec["dirs"][0]["eof_early"] or rec["dirs"][0]["recv_len"] != rec["dirs"][0]["sent_len"]):
-        return KEY_READ_TIMEOUT
+    if p.get("read_timeout_ms") and rec["dirs"][0]["eof_early"] and rec["dirs"][0]["first_diff"] == -1:
+        return KEY_READ_TIMEOUT  # the target saw end-of-stream before the client shut down, on an intact prefix
     why = []
     for d, name in ((0, "client-to-target"), (1, "target-to-client")):
         o = rec["dirs"][d]
